@@ -556,11 +556,23 @@ func iterateSliceOrArrayInt(context *Context, v reflect.Value) {
 	}
 }
 
+// float32Bits returns the exact bit pattern of a float32 element.
+// reflect.Value.Float() widens to float64 and narrowing it back turns a
+// signaling NaN into a quiet NaN, so the widening is avoided where possible.
+func float32Bits(v reflect.Value) uint32 {
+	if v.CanInterface() {
+		if f, ok := v.Interface().(float32); ok {
+			return math.Float32bits(f)
+		}
+	}
+	return math.Float32bits(float32(v.Float()))
+}
+
 func iterateSliceOrArrayFloat32(context *Context, v reflect.Value) {
 	elementCount := v.Len()
 	data := make([]uint8, elementCount*4)
 	for i := 0; i < elementCount; i++ {
-		elem := math.Float32bits(float32(v.Index(i).Float()))
+		elem := float32Bits(v.Index(i))
 		data[i*4] = uint8(elem)
 		data[i*4+1] = uint8(elem >> 8)
 		data[i*4+2] = uint8(elem >> 16)
